@@ -254,3 +254,8 @@ def _aliases(repo: Repo, rep: Report) -> None:
                         rep.ok("R15.7", inst, None)
     if n < 2:
         rep.error(f"R15.7: only {n} alias definitions found")
+
+
+_ADDENDUM = ' R15.8: direction discipline (as R08.6). Borrowed: R19.4 (hooks are looked up on the class, not on the attrs holder, so the codec path runs them too).'
+EXPLANATION += _ADDENDUM
+LEVEL_TEXT += _ADDENDUM
